@@ -20,5 +20,20 @@ broadcast proof fn b_refstrs_empty(s: Seq<&str>)
     ensures #[trigger] refstrs(s) == Seq::<Seq<char>>::empty()
 { assert(refstrs(s) =~= Seq::<Seq<char>>::empty()); }
 // allocation bound: a Vec<String> cannot hold usize::MAX elements (24-byte elements, isize::MAX bytes)
-pub broadcast axiom fn axiom_vec_string_len(v: Vec<String>)
+broadcast axiom fn axiom_vec_string_len(v: Vec<String>)
     ensures #[trigger] v@.len() + 2 <= usize::MAX;
+// ---- salts (A-RNG): provenance predicate, uninterpreted ----
+pub uninterp spec fn csprng_bytes(b: Seq<u8>) -> bool;      // bytes came out of the thread-local OS-seeded CSPRNG
+spec fn is_salt(s: Seq<char>) -> bool { exists|b: Seq<u8>| csprng_bytes(b) && b.len() >= 16 && s == b64(b) }
+// text of a disclosure as assembled by format!: uninterpreted function of (salt, name?, serialized value) (A-DISC-TEXT)
+pub uninterp spec fn disclosure_text(salt: Seq<char>, key: Option<Seq<char>>, value_text: Seq<char>) -> Seq<char>;
+spec fn key_view(k: Option<String>) -> Option<Seq<char>> { match k { Some(s) => Some(s@), None => None } }
+#[verifier::external_trait_specification]
+pub trait ExToString {
+    type ExternalTraitSpecificationFor: ToString;
+    fn to_string(&self) -> (r: String) ensures r@ == to_text(self);
+}
+// Display text of a value: uninterpreted, except that a String displays as itself
+pub uninterp spec fn to_text<T: ?Sized>(t: &T) -> Seq<char>;
+broadcast axiom fn axiom_to_text_string(s: &String)
+    ensures #[trigger] to_text::<String>(s) == s@;
